@@ -54,6 +54,10 @@ fn run_worker_once(
     if let Some(o) = only {
         cmd.arg("--only").arg(o.to_string());
     }
+    // worker threads of the library default to 1 GiB stacks; the diagrams here are tiny
+    if std::env::var("OXIDD_STACK_SIZE").is_err() {
+        cmd.env("OXIDD_STACK_SIZE", (16 * 1024 * 1024).to_string());
+    }
     cmd.stdin(Stdio::null()).stdout(Stdio::piped()).stderr(Stdio::piped());
     let mut child = cmd.spawn().expect("spawn worker");
     let stdout = child.stdout.take().unwrap();
@@ -94,6 +98,8 @@ fn run_worker_once(
                 if let Ok(v) = serde_json::from_str::<Value>(rest) {
                     g.0.viols.push(v);
                 }
+            } else if let Some(rest) = line.strip_prefix("M ") {
+                g.0.machinery.push(rest.to_string());
             } else if let Some(rest) = line.strip_prefix("S ") {
                 if let Ok(v) = serde_json::from_str::<Value>(rest) {
                     if g.0.samples.len() < 3 {
@@ -209,7 +215,7 @@ fn run_shard(prop: &str, shard: &str, tier: &str, meta: &Meta) -> ShardResult {
             let label = pending.as_ref().map(|p| p.1.clone()).unwrap_or_default();
             if meta.hang_is_violation {
                 total.total_viol += 1;
-                total.viols.push(json!({"attrs": {"hang": "1", "group_label": label}, "case": {"group_label": label}, "msg": format!("no result within {} s", timeout.as_secs()), "group": pending.map(|p| p.0).unwrap_or(0), "shard": shard, "property": prop, "tier": tier}));
+                total.viols.push(json!({"attrs": {"hang": "1"}, "case": {"group_label": label}, "msg": format!("no result within {} s", timeout.as_secs()), "group": pending.map(|p| p.0).unwrap_or(0), "shard": shard, "property": prop, "tier": tier}));
             } else {
                 total.capped = true;
                 total.machinery.push(format!("shard {shard} hit the wall-clock cap of {} s in group {:?}", timeout.as_secs(), label));
@@ -227,10 +233,12 @@ fn run_shard(prop: &str, shard: &str, tier: &str, meta: &Meta) -> ShardResult {
                 // confirm by re-running the group alone in a fresh worker
                 let (_r2, pending2, tail2, _to2, code2) = run_worker_once(prop, shard, tier, 0, Some(n), Duration::from_secs(120));
                 let reproduced = code2 != Some(0) && pending2.is_some();
-                if reproduced {
+                if crate::proto::is_env_failure(&tail) || (reproduced && crate::proto::is_env_failure(&tail2)) {
+                    total.machinery.push(format!("worker died in group {n} '{label}' from resource exhaustion of the sandbox: {msg}"));
+                } else if reproduced {
                     let (site2, _) = crash_site(&tail2);
                     total.total_viol += 1;
-                    total.viols.push(json!({"attrs": {"crash": "1", "site": site2, "group_label": label}, "case": {"group_label": label}, "msg": format!("worker process died (exit {:?}) in group {n} '{label}': {msg}", code), "group": n, "shard": shard, "property": prop, "tier": tier}));
+                    total.viols.push(json!({"attrs": {"crash": "1", "site": site2}, "case": {"group_label": label}, "msg": format!("worker process died (exit {:?}) in group {n} '{label}': {msg}", code), "group": n, "shard": shard, "property": prop, "tier": tier}));
                 } else {
                     total.machinery.push(format!("worker died in group {n} '{label}' (site {site}: {msg}) but the group passed when re-run alone"));
                 }
